@@ -198,6 +198,7 @@ pub fn cases(args: &[String]) {
                         "nodes": nodes.iter().map(|x| x.to_string()).collect::<Vec<_>>(),
                         "obs": obs.iter().map(|x| x.to_string()).collect::<Vec<_>>()}));
     }
+    crate::util::wd_pause();
     println!("{}", json!({ "cases": out }));
 }
 
@@ -211,7 +212,14 @@ pub fn search(args: &[String]) {
     let mut tried = 0u64;
     for _ in 0..n {
         crate::util::tick_idx(0, serde_json::Value::Null);
-        let (ty, m, ops) = gen_case(&mut rng, false);
+        let (ty, m, mut ops) = gen_case(&mut rng, false);
+        // a NaN offer is below nothing: it must change nothing (the oracle compares with the float order)
+        if ty == "f64" && rng.coin(0.3) {
+            for _ in 0..1 + rng.below(4) {
+                let at = rng.below(ops.len() as u64 + 1) as usize;
+                ops.insert(at, Op::Update(rng.below(m as u64) as usize, key_of_f64(f64::NAN)));
+            }
+        }
         tried += 1;
         if let Some(why) = oracle_disagrees(&ty, m, &ops) {
             // shrink by deleting operations
@@ -238,6 +246,7 @@ pub fn search(args: &[String]) {
             }
         }
     }
+    crate::util::wd_pause();
     println!("{}", json!({"tried": tried, "found": found}));
 }
 
@@ -298,6 +307,7 @@ pub fn replay(args: &[String]) {
     }).collect();
     std::panic::set_hook(Box::new(|_| {}));
     let (outcome, nodes, obs) = run_ty(&ty, m, &ops);
+    crate::util::wd_pause();
     println!("{}", json!({"outcome": outcome, "nodes": nodes.iter().map(|x| x.to_string()).collect::<Vec<_>>(),
         "obs": obs.iter().map(|x| x.to_string()).collect::<Vec<_>>(), "oracle": oracle_disagrees(&ty, m, &ops)}));
 }
